@@ -153,6 +153,7 @@ func roundWeed(buffer []byte, distance_too_high_w, unsafe_interval, rest, ten_ka
 // unambiguously determined.
 //
 // Precondition: rest < ten_kappa.
+// buffer must hold only the generated digits (not the caller's prefix, e.g. a sign).
 func roundWeedCounted(buffer []byte, rest, ten_kappa, unit uint64, kappa *int) bool {
 	_DCHECK(rest < ten_kappa)
 	// The following tests are done in a specific order to avoid overflows. They
@@ -486,7 +487,7 @@ func digitGenCounted(w diyfp, requested_digits int, buffer []byte) (kappa int, b
 
 	if requested_digits == 0 {
 		rest := uint64(integrals)<<-one.e + fractionals
-		res = roundWeedCounted(buf, rest, uint64(divisor)<<-one.e, w_error, &kappa)
+		res = roundWeedCounted(buf[len(buffer):], rest, uint64(divisor)<<-one.e, w_error, &kappa)
 		return
 	}
 
@@ -512,7 +513,7 @@ func digitGenCounted(w diyfp, requested_digits int, buffer []byte) (kappa int, b
 	if requested_digits != 0 {
 		res = false
 	} else {
-		res = roundWeedCounted(buf, fractionals, one.f, w_error, &kappa)
+		res = roundWeedCounted(buf[len(buffer):], fractionals, one.f, w_error, &kappa)
 	}
 	return
 }
